@@ -663,6 +663,16 @@ impl<'lexer> Lexer<'lexer> {
     self.type_name = false;
 
     // ------------------------------------------------------------------------
+    // tweak with names that are being introduced
+    // a name directly followed by a colon is the key of a context entry, a formal
+    // parameter with its type or the name of a named parameter: it is taken whole,
+    // whatever shorter names are bound in the parsing scope
+    // ------------------------------------------------------------------------
+    if self.is_next_character(&[':'], 0) {
+      return Ok((TokenType::Name, TokenValue::Name(parts.to_vec().into())));
+    }
+
+    // ------------------------------------------------------------------------
     // tweak with name of the `item` in filter
     // ------------------------------------------------------------------------
     if let Some(part_name) = parts.get(0) {
